@@ -99,7 +99,9 @@ func (p *ProjectRunner) Run() error {
 	log.Debug().Msgf("Spinning up %d processes. Order: %q", len(runOrder), nameOrder)
 	for _, proc := range runOrder {
 		newConf := proc
-		p.runProcess(&newConf)
+		if runErr := p.runProcess(&newConf); runErr != nil {
+			log.Err(runErr).Msgf("Failed to run process %s", newConf.ReplicaName)
+		}
 	}
 	p.waitGroup.Wait()
 	log.Info().Msg("Project completed")
@@ -109,7 +111,7 @@ func (p *ProjectRunner) Run() error {
 	return err
 }
 
-func (p *ProjectRunner) runProcess(config *types.ProcessConfig) {
+func (p *ProjectRunner) runProcess(config *types.ProcessConfig) error {
 	procLogger := p.logger
 	if isStringDefined(config.LogLocation) {
 		procLogger = pclog.NewLogger()
@@ -120,7 +122,11 @@ func (p *ProjectRunner) runProcess(config *types.ProcessConfig) {
 		log.Error().Msgf("Error: Can't get log: %s using empty buffer", err.Error())
 		procLog = pclog.NewLogBuffer(0)
 	}
-	procState, _ := p.GetProcessState(config.ReplicaName)
+	procState, err := p.GetProcessState(config.ReplicaName)
+	if err != nil {
+		// the process was removed (update, scale down) after the caller looked its configuration up
+		return fmt.Errorf("no such process: %s", config.ReplicaName)
+	}
 	isMain := config.Name == p.mainProcess
 	hasMain := p.mainProcess != ""
 	printLogs := !hasMain && !p.isTuiOn
@@ -142,7 +148,11 @@ func (p *ProjectRunner) runProcess(config *types.ProcessConfig) {
 		withExtraArgs(extraArgs),
 	)
 	verifRegister(process)
-	p.addRunningProcess(process)
+	if !p.addRunningProcess(process) {
+		// another request registered an instance since the caller checked
+		log.Error().Msgf("Process %s is already running", config.ReplicaName)
+		return fmt.Errorf("process %s is already running", config.ReplicaName)
+	}
 	p.waitGroup.Add(1)
 	go func(proc *Process) {
 		defer p.removeRunningProcess(proc)
@@ -160,6 +170,15 @@ func (p *ProjectRunner) runProcess(config *types.ProcessConfig) {
 			p.onProcessEnd(exitCode, proc.procConf)
 		}
 	}(process)
+	return nil
+}
+
+// runProcessByName launches a new instance of a configured process on behalf of a start or restart request
+func (p *ProjectRunner) runProcessByName(name string) error {
+	if processConfig, ok := p.getProcessConfig(name); ok {
+		return p.runProcess(&processConfig)
+	}
+	return fmt.Errorf("no such process: %s", name)
 }
 
 func (p *ProjectRunner) waitIfNeeded(process *types.ProcessConfig) error {
@@ -342,11 +361,18 @@ func (p *ProjectRunner) setProcessConfig(name string, proc types.ProcessConfig) 
 	p.project.Processes[name] = proc
 }
 
-func (p *ProjectRunner) addRunningProcess(process *Process) {
+// addRunningProcess registers a new instance unless another instance of the same process is
+// registered and has not ended yet: the check and the registration are one critical section,
+// which is what keeps concurrent start / restart requests from running two instances.
+func (p *ProjectRunner) addRunningProcess(process *Process) bool {
 	p.runProcMutex.Lock()
+	defer p.runProcMutex.Unlock()
+	if current, ok := p.runningProcesses[process.getName()]; ok && current != process && !current.isDone() {
+		return false
+	}
 	p.runningProcesses[process.getName()] = process
 	verifTrace(process, "Spawn")
-	p.runProcMutex.Unlock()
+	return true
 }
 
 func (p *ProjectRunner) addDoneProcess(process *Process) {
@@ -399,13 +425,7 @@ func (p *ProjectRunner) StartProcess(name string) error {
 		return fmt.Errorf("process %s is already running", name)
 	}
 	verifGateName(name, "api.start.checked")
-	if processConfig, ok := p.getProcessConfig(name); ok {
-		p.runProcess(&processConfig)
-	} else {
-		return fmt.Errorf("no such process: %s", name)
-	}
-
-	return nil
+	return p.runProcessByName(name)
 }
 
 func (p *ProjectRunner) StopProcess(name string) error {
@@ -463,12 +483,7 @@ func (p *ProjectRunner) RestartProcess(name string) error {
 	}
 	verifGateName(name, "api.restart.slept")
 
-	if processConfig, ok := p.getProcessConfig(name); ok {
-		p.runProcess(&processConfig)
-	} else {
-		return fmt.Errorf("no such process: %s", name)
-	}
-	return nil
+	return p.runProcessByName(name)
 }
 
 func (p *ProjectRunner) GetProcessInfo(name string) (*types.ProcessConfig, error) {
@@ -872,7 +887,9 @@ func (p *ProjectRunner) addProcessAndRun(proc types.ProcessConfig) {
 	p.setProcessConfig(proc.ReplicaName, proc)
 	p.initProcessLog(proc.ReplicaName)
 	if !proc.IsDeferred() {
-		p.runProcess(&proc)
+		if err := p.runProcess(&proc); err != nil {
+			log.Err(err).Msgf("Failed to run process %s", proc.ReplicaName)
+		}
 	}
 }
 
